@@ -597,10 +597,16 @@ def gen_special(rng, prop):
             # padding against a nameless void field: two classes, one value (the model and the property see one attribute)
             w = rng.choice([1, 3, 8, 16, 64])
             w2 = w if rng.random() < 0.6 else w % 64 + 1
-            return {"kind": "attr", "class": "xkind", "a": {"type": desc_key(["void", w]), "name": "", "value": None},
-                    "b": {"type": desc_key(["void", w2]), "name": "", "value": None, "as_field": True}}
-            # NOT GENERATED (genuine defect of the unchanged library, reported): Field(T, "x") == Constant(T, "x", v) holds in
-            # both directions although the two hash differently and have different string forms.
+            if rng.random() < 0.5:
+                return {"kind": "attr", "class": "xkind", "a": {"type": desc_key(["void", w]), "name": "", "value": None},
+                        "b": {"type": desc_key(["void", w2]), "name": "", "value": None, "as_field": True}}
+            # a field against a constant of the same type and name (they used to compare equal with different hashes:
+            # genuine defect, repaired in /repo by 09edd0e)
+            pt = rng.choice([["prim", 8, "uintsat"], ["prim", 16, "uintsat"], ["prim", 7, "intsat"], ["prim", 1, "bool"], ["prim", 32, "floatsat"]])
+            nm = rng.choice(["x", "y", "A"])
+            fld = {"type": desc_key(pt), "name": nm, "value": None}
+            cst = {"type": desc_key(pt), "name": nm, "value": const_value(rng, pt)}
+            return {"kind": "attr", "class": "xkind", "a": fld, "b": cst} if rng.random() < 0.5 else {"kind": "attr", "class": "xkind", "a": cst, "b": fld}
         if rng.random() < 0.25:
             t = gen_svc(rng)
         else:
